@@ -269,6 +269,12 @@ func multiExecCase(k *engine.Case) {
 					hash := want
 					lane := ex.IndexOf(hash)
 					runs := int32(0)
+					// some callees fail: the caller must get exactly its own call's error, and the
+					// lane goes on serving the calls behind it
+					var calleeErr error
+					if n%5 == 2 {
+						calleeErr = fmt.Errorf("callee error of call %d", want)
+					}
 					v, err := ex.Submit(context.Background(), hash, func(ctx context.Context, laneArg int) (interface{}, error) {
 						if atomic.AddInt32(&inLane[lane], 1) != 1 {
 							report("%s #%d: two calls of lane %d ran at the same time", ex.Name(), ei, lane)
@@ -277,12 +283,22 @@ func multiExecCase(k *engine.Case) {
 						atomic.AddInt64(&executed, 1)
 						runtime.Gosched()
 						atomic.AddInt32(&inLane[lane], -1)
+						if calleeErr != nil {
+							return nil, calleeErr
+						}
 						return want, nil
 					})
 					if err != nil && atomic.LoadInt32(&runs) == 0 && strings.Contains(err.Error(), "full") {
 						// a bounded queue (proc channel) may refuse when full: not accepted, try again
 						runtime.Gosched()
 						n--
+						continue
+					}
+					if calleeErr != nil {
+						if err != calleeErr || atomic.LoadInt32(&runs) != 1 {
+							report("%s #%d caller %d: call %d, whose callee returned the error %q, came back with (%v, %v) after running %d time(s)", ex.Name(), ei, c, n, calleeErr, v, err, atomic.LoadInt32(&runs))
+							return
+						}
 						continue
 					}
 					if err != nil || v != want || atomic.LoadInt32(&runs) != 1 {
